@@ -299,6 +299,9 @@ theorem readType_spec : ∀ (n : Nat) (p : P), 2 * p.mu + 3 ≤ n →
           | some e => exact ⟨ltpi.le, fun _ _ => ltpi⟩
           | none =>
             simp only
+            by_cases hlm : (cm.listNeedsMember && ti.isNone) = true
+            · simp only [hlm, if_true]; exact ⟨ltpi.le, fun _ _ => ltpi⟩
+            simp only [hlm, Bool.false_eq_true, if_false]
             rcases h2 : skipSp cm pi.leave with ⟨r2, p2⟩
             have l2 : Le p2 pi.leave := by have := skipSp_le cm pi.leave; rwa [h2] at this
             have lt2 : Lt p2 p := l2.trans_lt ltpi
